@@ -38,10 +38,16 @@ def load_known(pid):
     return [e for e in k.get("findings", []) if e.get("property") == pid and e.get("status") == "known"]
 
 
+def wild(pattern, key):
+    """'*' is the only wildcard (fnmatch would treat the '[N]' in sanitizer messages as a character class)"""
+    import re
+    return re.fullmatch(".*".join(re.escape(x) for x in pattern.split("*")), key, re.S) is not None
+
+
 def key_matches(known, key):
     for e in known:
         k = e["key"]
-        if key == k or ("*" in k and fnmatch.fnmatchcase(key, k)):
+        if key == k or ("*" in k and wild(k, key)):
             return e
     return None
 
@@ -69,11 +75,15 @@ def feature_tag(case):
         t.append("16BP")
     if c.get("tile_rows", 0) or c.get("tile_columns", 0):
         t.append("TILES")
+    if c.get("enable_tpl_la", 1) == 0:
+        t.append("TPL0")
+    if c.get("enc_mode", 8) <= 4:
+        t.append("SB128")
     return "+".join(t) or "plain"
 
 
 def run_tagged(mod, case, tier):
-    res = run_tagged(mod, case, tier)
+    res = mod.run_case(case, tier)
     if getattr(mod, "TAG_KEYS", False):
         tag = feature_tag(case)
         for v in res.get("violations", []):
@@ -81,6 +91,23 @@ def run_tagged(mod, case, tier):
                 v["key"] = v["key"] + "|" + tag
                 v["tagged"] = 1
     return res
+
+
+def known_replays(pid, tier, seed, quick_n=3):
+    """stored reproductions of the listed known findings (replays/<id>/known/*.json): all of them in the thorough tier, a rotating
+    sample in the quick tier; each prints KNOWN-FINDING while it still fails"""
+    d = os.path.join(REPLAYS, pid, "known")
+    out = []
+    if os.path.isdir(d):
+        files = sorted(f for f in os.listdir(d) if f.endswith(".json"))
+        if tier != "thorough" and len(files) > quick_n:
+            files = [files[(seed * quick_n + i) % len(files)] for i in range(quick_n)]
+        for f in files:
+            try:
+                out.append(json.load(open(os.path.join(d, f)))["case"])
+            except Exception:
+                pass
+    return out
 
 
 def derive_seed(seed, shard):
@@ -258,6 +285,7 @@ def main(mod, argv=None):
                     reg_cases.append(json.load(open(os.path.join(rdir, f)))["case"])
                 except Exception:
                     pass
+    reg_cases += known_replays(pid, tier, a.seed)
     reg_log = open(os.path.join(outdir, "shard_reg.jsonl"), "w")
     for case in reg_cases:
         try:
